@@ -370,12 +370,13 @@ func checkC01(e *core.Env) {
 
 	// the same scripts over less common configurations: an in-process channel whose messages are copied by a
 	// codec (every message crosses as bytes; empty messages as zero bytes), and HTTP carriers whose bodies arrive
-	// a few bytes per Read in both directions (frames and their size prefaces are split across reads)
+	// a few bytes per Read in both directions (frames and their size prefaces are split across reads), or whose requests are sent with an undeclared length
 	variants := []*Carrier{
 		NewInproc(&Service{}, carrierOpt{cloner: inprocgrpc.CodecCloner(encoding.GetCodec(grpcproto.Name))}),
 		NewHTTPServer(&Service{}, carrierOpt{}).InPieces(3),
 		NewHTTPMux(&Service{}, carrierOpt{basePath: "/p/"}).InPieces(1),
 		NewHTTPServer(&Service{}, carrierOpt{}).InPieces(7),
+		NewHTTPServer(&Service{}, carrierOpt{}).Chunked(),
 	}
 	variants[0].Name = "inproc-codec"
 	for _, c := range variants {
